@@ -105,12 +105,14 @@ TEXTS = {
         "design_ref": "DESIGN.md §4 C07", "note": NOTE_COMMON + "String::from_utf8 / is_char_boundary modelled by byte-level predicates.", "technique": TECH,
     },
     "C08": {
-        "text": "Theorems (Properties/C08.v): every input shorter than the minimum header is Err(ParseBinaryError); every file with the magic "
-                "and a version byte other than 2/3 is Err(NotImplemented); emitted version is an accepted one (constants regenerated from the "
-                "source). PARTIAL: 'every proper prefix and every extension of a valid file is rejected' is stated (C08_full_statement) but not "
-                "yet proved; it is decided by running the Gallina decoder and the crate on EVERY truncation offset, suffixes and version bytes "
-                "of files laid out by an independent v1/v2/v3 encoder, and by spec_C08 on the crate's outcomes.",
-        "design_ref": "DESIGN.md §4 C08", "note": NOTE_COMMON + "harness/src/bin.rs defines the documented layouts.", "technique": TECH,
+        "text": "Theorems about the Gallina transcription of Ontology::from_bytes (Properties/C08.v, EVERY byte string): an accepted file "
+                "followed by any non-empty suffix is Err(ParseBinaryError); no proper prefix of an accepted file is accepted (error or panic, "
+                "never an ontology) — both for v1, v2 and v3 alike, by a lock-step simulation of the section reads; every input shorter than "
+                "the minimum header is Err(ParseBinaryError); magic + version byte other than 2/3 is Err(NotImplemented); the emitted version is "
+                "an accepted one (constants regenerated from the source). PARTIAL: 'a file laid out according to the documented v1/v2/v3 "
+                "tables decodes to the facts it encodes' is decided by running the transcription and the crate on files produced by an "
+                "independent encoder (harness/src/bin.rs) at EVERY truncation offset, with suffixes and foreign version bytes, and by spec_C08.",
+        "design_ref": "DESIGN.md §4 C08, §9", "note": NOTE_COMMON + "harness/src/bin.rs defines the documented layouts.", "technique": TECH,
     },
     "C09": {
         "text": "Theorems (Properties/C09.v, about the byte-level text functions of the Gallina transcription): split inverts join on pieces "
